@@ -47,7 +47,8 @@ pub struct Case {
 fn render_name(def: &str, it: &Intent, k: usize) -> Vec<u8> {
     let d = def.as_bytes();
     let (alpha, sfx) = split_suffix(d);
-    let a = if it.long >> (k % 8) & 1 == 1 { alpha } else { short_of(alpha) };
+    // (a name that starts in lower case has no short form: the full spelling is the only one)
+    let a = if it.long >> (k % 8) & 1 == 1 || short_of(alpha).is_empty() { alpha } else { short_of(alpha) };
     let mut s: Vec<u8> = a.to_vec();
     match it.case {
         0 => {}
